@@ -42,7 +42,16 @@ static size_t build(uint8_t* buf) {
     const char* pre = sk == 0 ? "" : sk == 1 ? "[" : sk == 2 ? "{\"a\":" : sk == 3 ? "[\"" : "{\"b\":\"";
     o = put(buf, o, pre);
     if (kind == 0) { for (size_t i = 0; i < fill; i++) buf[o++] = ' '; }
-    else { if (sk < 3) buf[o++] = '"'; for (size_t i = 0; i < fill; i++) buf[o++] = "ab[{]},:"[i & 7]; }
+    else if (kind == 1) { if (sk < 3) buf[o++] = '"'; for (size_t i = 0; i < fill; i++) buf[o++] = "ab[{]},:"[i & 7]; }
+    else if (kind == 2) {   // string content whose last two bytes are an escaped quote: the backslash lands on byte fill-2 of the string
+      if (sk < 3) buf[o++] = '"';
+      for (size_t i = 0; i + 2 < fill; i++) buf[o++] = "ab[{]},:"[i & 7];
+      buf[o++] = '\\'; buf[o++] = '"';
+    } else {                // kind 3: two whitespace runs: 3 spaces, a colon-free token boundary, then fill spaces (cached-bitmap path of skip_space_safe)
+      buf[o++] = ' '; buf[o++] = ' '; buf[o++] = ' ';
+      if (sk == 2) { /* {"a":   <fill spaces> */ } 
+      for (size_t i = 0; i < fill; i++) buf[o++] = ' ';
+    }
     verif_symbolic(buf + o, tail, "tail"); o += tail;
     return o;
   }
